@@ -51,13 +51,16 @@ package core
 //@ define gw(c) = atlabel(G, c.wcount)
 
 //@ func eventloop.sread
-//@   props C01 C03 C09 C11 C13
+//@   props C01 C02 C03 C08 C09 C11 C13
 //@   requires s != nil && s.loop != nil && EngineGlobal != nil && el.eventHandler != nil && s.opened
 //@   requires forall a string :: has(EngineGlobal.ProxyPool, a) ==> EngineGlobal.ProxyPool[a] != nil
-//@   assume at call conn.sread#0 :: s.inFragQueue != nil && fwf(s.inFragQueue)
+//@   assume at call conn.sread#0 :: s.inFragQueue != nil && fwf(s.inFragQueue) && swf(s)
 //@   assume at call conn.sread#0 :: (hd(s) != nil && hd(s).Peer != nil) ==> (forall k int32 :: has(hd(s).Peer.Body, k) ==> hd(s).Peer.Body[k] != nil)
 //@   assume at call conn.sread#0 :: (hd(s) != nil && hd(s).Peer != nil) ==> (hd(s).Peer.RspBody == nil || hd(s).RspBody == nil || hd(s).RspBody.base != hd(s).Peer.RspBody.base)
 //@   assume at call listenServer.OnMoved#0 :: r.Peer.Fd2Slot != nil
+//@   label W at call RingBuffer.Write#0
+//@   assume at call RingBuffer.Write#0 :: elastic.ewf(s.inboundBuffer) && (s.inboundBuffer.rb == nil || s.buffer.base != s.inboundBuffer.rb.buf.base)
+//@   ensures[leftover@C08] reached(W) ==> (elastic.elen(s.inboundBuffer) == atlabel(W, slen(s)) && (forall k int :: (0 <= k && k < elastic.elen(s.inboundBuffer)) ==> elastic.eat(s.inboundBuffer, k) == atlabel(W, sat(s, k))))
 //@   label E at call Errorf#0
 //@   label G at call MsgQueue.Empty#0
 //@   assume at call MsgQueue.Empty#0 :: cl(c) != nil && mwf(cl(c)) && c.loop != nil
@@ -140,8 +143,12 @@ package core
 // commands) is recycled and its reply written at once; that is in pipeline order only if no earlier request of the
 // client is still waiting (clause order).
 //@ func eventloop.cread
-//@   props C01 C03 C12
+//@   props C01 C03 C08 C12
 //@   requires c != nil && c.loop != nil && EngineGlobal != nil && el.eventHandler != nil && c.opened
+//@   assume at call conn.cread#0 :: swf(c)
+//@   label W at call RingBuffer.Write#0
+//@   assume at call RingBuffer.Write#0 :: elastic.ewf(c.inboundBuffer) && (c.inboundBuffer.rb == nil || c.buffer.base != c.inboundBuffer.rb.buf.base)
+//@   ensures[leftover@C08] reached(W) ==> (elastic.elen(c.inboundBuffer) == atlabel(W, slen(c)) && (forall k int :: (0 <= k && k < elastic.elen(c.inboundBuffer)) ==> elastic.eat(c.inboundBuffer, k) == atlabel(W, sat(c, k))))
 //@   assume at call listenServer.OnCReact#0 :: server.crok(el.eventHandler, r, c)
 //@   assert[order@C01] at call conn.write#0 :: cl(c).count == 0
 //@   loop 0
